@@ -265,69 +265,366 @@ def _fold(fo, e, fn):
         return None
 
 
-def verdict_monitor(r, fn, is_cmp, what, need_done):
-    """A false comparison makes the function return False; True only when nothing failed (and only after the
-    loop ran to completion); no iteration skips the comparison; no break before a failure."""
-    cfg = fn.cfg()
-    heads = [n for n in cfg.nodes if n.kind == "iter"]
-    rets = cfg.find(is_return)
-    if not rets or not cfg.find(is_cmp):
-        raise AnchorVanished("%s: comparison / return not found" % short(fn))
-    rvars = {x.ast.value.id for x in rets if isinstance(x.ast.value, ast.Name)}
+# ------------------------------------------------- conjunction verdicts
+def _truth(v):
+    return False if v is None else v
 
-    def const_of(e):
-        if isinstance(e, ast.Constant) and isinstance(e.value, bool):
-            return e.value
-        return "?"
 
-    def transfer(n, lab, nxt, st):
-        vals, failed, tested, done, bad = st
-        if bad or lab == "exc":
+def _neg(v):
+    v = _truth(v)
+    return "?" if v == "?" else (not v)
+
+
+_WRAPPERS = ("list", "tuple", "iter", "enumerate", "reversed", "sorted")
+
+
+def vector_kind(fn, tv, e, depth=3):
+    """Does expression `e` of function fn denote every entry of the collection parameter `tv` ('full'), a strict
+    part of it ('part': a slice), or something else (None)?  Order-changing / copying wrappers and dict key/item
+    views are transparent; local names are followed when they have exactly one definition."""
+    if tv is None or e is None:
+        return None
+    while True:
+        if isinstance(e, ast.Call) and isinstance(e.func, ast.Name) and e.func.id in _WRAPPERS and e.args \
+                and not isinstance(e.args[0], ast.Starred):
+            e = e.args[0]
+        elif isinstance(e, ast.Call) and isinstance(e.func, ast.Attribute) and e.func.attr in ("items", "keys", "copy") \
+                and not e.args and not e.keywords:
+            e = e.func.value
+        else:
+            break
+    if isinstance(e, ast.Subscript) and isinstance(e.slice, ast.Slice):
+        sl = e.slice
+        k = vector_kind(fn, tv, e.value, depth)
+        if k is None:
             return None
-        vals = dict(vals)
-        if n.kind == "stmt":
-            for v in rvars:
-                a = assign_value(n, v)
-                if a is not None:
-                    vals[v] = const_of(a)
-                elif v in node_stores(n):
-                    vals[v] = "?"
-            if isinstance(n.ast, ast.Break) and not failed:
-                bad = "leaves the loop with 'break' although no %s failed" % what
-        if n.kind == "iter":
-            if lab == "iter":
-                tested = False
-            elif lab == "done":
-                done = True
-        if n.kind == "test" and is_cmp(n):
-            tested = True
-            if isinstance(lab, tuple) and lab[0] == "F":
-                failed = True
-        if nxt.kind == "iter" and n.kind != "iter" and tested is False and nxt in heads:
-            bad = "an iteration completes without evaluating the %s" % what
-        return (tuple(sorted(vals.items())), failed, tested, done, bad)
+        zero = sl.lower is None or (isinstance(sl.lower, ast.Constant) and sl.lower.value in (0, None))
+        whole = zero and (sl.upper is None or (isinstance(sl.upper, ast.Constant) and sl.upper.value is None)) \
+            and (sl.step is None or (isinstance(sl.step, ast.Constant) and sl.step.value in (None, 1)))
+        return k if whole else "part"
+    if isinstance(e, ast.Name):
+        defs = def_exprs(fn).get(e.id, [])
+        if e.id == tv and not defs:
+            return "full"
+        if depth <= 0 or not defs:
+            return None
+        kinds = {vector_kind(fn, tv, d, depth - 1) if not (isinstance(d, ast.Name) and d.id == e.id) else "self"
+                 for d in defs}
+        kinds.discard("self")
+        if e.id == tv:
+            # the parameter is re-bound inside the function
+            if kinds == {"full"}:
+                return "full"
+            return "part" if kinds and None not in kinds else None
+        if len(defs) == 1 and kinds <= {"full", "part"} and kinds:
+            return kinds.pop()
+    return None
 
-    visited, parent = explore(cfg, ((), False, None, False, ""), transfer)
-    r.count(len(visited))
-    seen = set()
-    for (nid, st) in sorted(visited, key=lambda x: (x[0], repr(x[1]))):
-        n = cfg.nodes[nid]
+
+class ConjunctionVerdict:
+    """Decides, over all paths, that a function's boolean result is the CONJUNCTION of one primitive comparison
+    over every entry of a collection parameter: falsy as soon as any evaluated comparison was false, True only
+    when none was false and every entry was examined.
+
+    The CFG is explored with a small concrete store (True / False / None / '?') for the local names; evaluating
+    the primitive forks into (True, nothing failed) and (False, failed), whether it stands in a branch condition,
+    an assignment, a boolean operator, a return value or an all()/any() comprehension; branch conditions on known
+    values are followed only along the feasible edge.  Calls of storage-package helpers that contain the primitive
+    are summarised recursively (the collection parameter is mapped through the arguments).  Nothing here matches
+    how the loop is written - only what value reaches the return on which combination of comparison outcomes."""
+
+    def __init__(self, r, cg, is_prim, what, follow=True, kind_of=vector_kind):
+        self.r, self.cg, self.is_prim, self.what, self.follow, self.kind_of = r, cg, is_prim, what, follow, kind_of
+        self.memo, self.stack, self._has, self.reported = {}, [], {}, set()
+
+    # -- where the primitive lives
+    def has_prim(self, g, depth=3):
+        if g.qual in self._has:
+            return self._has[g.qual]
+        self._has[g.qual] = False
+        out = False
+        for c in calls_in_func(g, into_lambda=True):
+            if self.is_prim(g, c):
+                out = True
+            elif depth > 0 and self.follow:
+                out = any(h.module.name.startswith(STORAGE_PREFIX) and self.has_prim(h, depth - 1)
+                          for h in self.cg.resolve(g, c))
+            if out:
+                break
+        self._has[g.qual] = out
+        return out
+
+    def helper(self, fn, c):
+        if not self.follow:
+            return None
+        cands = [g for g in self.cg.resolve(fn, c) if g.module.name.startswith(STORAGE_PREFIX) and self.has_prim(g)]
+        if len(cands) > 1:
+            raise AnalysisError("%s: %s may reach several functions that evaluate the %s" % (short(fn), src(fn, c), self.what))
+        return cands[0] if cands else None
+
+    def mentions(self, fn, e):
+        return any(isinstance(x, ast.Call) and (self.is_prim(fn, x) or self.helper(fn, x) is not None) for x in ast.walk(e))
+
+    def undecided(self, fn, e):
+        raise AnalysisError("%s: cannot decide how the %s in '%s' reaches the verdict" % (short(fn), self.what, src(fn, e)))
+
+    # -- expressions: list of outcomes (value, failed, tested, done, origin)
+    def ev(self, fn, tv, vals, e):
+        def plain(v):
+            return [(v, False, False, False, None)]
+
+        def then(o, o2, v):
+            return (v, o[1] or o2[1], o[2] or o2[2], o[3] or o2[3], o2[4] or o[4])
+        if e is None:
+            return plain(None)
+        if isinstance(e, ast.Constant):
+            return plain(e.value if isinstance(e.value, bool) or e.value is None else "?")
+        if isinstance(e, ast.Name):
+            return plain(vals.get(e.id, "?"))
+        if isinstance(e, ast.UnaryOp) and isinstance(e.op, ast.Not):
+            return [(_neg(o[0]),) + o[1:] for o in self.ev(fn, tv, vals, e.operand)]
+        if isinstance(e, ast.BoolOp):
+            stop = not isinstance(e.op, ast.And)         # the truth value that short-circuits
+            outs = self.ev(fn, tv, vals, e.values[0])
+            for nx in e.values[1:]:
+                new = []
+                for o in outs:
+                    t1 = _truth(o[0])
+                    if t1 is stop:
+                        new.append(o)
+                        continue
+                    for o2 in self.ev(fn, tv, vals, nx):
+                        if t1 == "?":
+                            new.append(then(o, o2, stop if _truth(o2[0]) is stop else "?"))
+                        else:
+                            new.append(then(o, o2, o2[0]))
+                outs = new
+            return outs
+        if isinstance(e, ast.IfExp):
+            out = []
+            for o in self.ev(fn, tv, vals, e.test):
+                t1 = _truth(o[0])
+                for br, want in ((e.body, True), (e.orelse, False)):
+                    if t1 == "?" or t1 is want:
+                        out.extend(then(o, o2, o2[0]) for o2 in self.ev(fn, tv, vals, br))
+            return out
+        if isinstance(e, ast.Call):
+            if self.is_prim(fn, e):
+                return [(True, False, True, False, None), (False, True, True, False, None)]
+            nm = call_name(e)
+            if nm == "bool" and len(e.args) == 1 and not e.keywords:
+                return [(_truth(o[0]),) + o[1:] for o in self.ev(fn, tv, vals, e.args[0])]
+            if nm in ("all", "any") and len(e.args) == 1 and not e.keywords \
+                    and isinstance(e.args[0], (ast.GeneratorExp, ast.ListComp)) and self.mentions(fn, e.args[0]):
+                return self.quantified(fn, tv, vals, e, nm == "all")
+            g = self.helper(fn, e)
+            if g is not None:
+                return self.through_helper(fn, tv, e, g)
+        if self.mentions(fn, e):
+            self.undecided(fn, e)
+        return plain("?")
+
+    def quantified(self, fn, tv, vals, e, is_all):
+        comp = e.args[0]
+        gen = comp.generators[0]
+        kind = self.kind_of(fn, tv, gen.iter)
+        if len(comp.generators) != 1 or gen.ifs or gen.is_async or kind is None:
+            self.undecided(fn, e)
+        v2 = dict(vals)
+        for x in ast.walk(gen.target):
+            if isinstance(x, ast.Name):
+                v2[x.id] = "?"
+        outs = self.ev(fn, tv, v2, comp.elt)
+        good = {_truth(o[0]) for o in outs if not o[1]}
+        fail = {_truth(o[0]) for o in outs if o[1]}
+        empty = is_all
+        res = {(v, False) for v in good | {empty}}
+        absorbing = not is_all                       # all(): False absorbs; any(): True absorbs
+        if absorbing in fail:
+            res.add((absorbing, True))
+        if (not absorbing) in fail:
+            res |= {(v, True) for v in good | {not absorbing}}
+        if "?" in fail:
+            res.add(("?", True))
+        return [(v, f, True, kind == "full", None) for (v, f) in sorted(res, key=repr)]
+
+    def through_helper(self, fn, tv, c, g):
+        params = first_positional_params(g)
+        sub_tv, kind = None, None
+        for i, a in enumerate(c.args):
+            if isinstance(a, ast.Starred):
+                self.undecided(fn, c)
+            k = self.kind_of(fn, tv, a)
+            if k:
+                if i >= len(params) or sub_tv is not None:
+                    self.undecided(fn, c)
+                sub_tv, kind = params[i], k
+        for kw in c.keywords:
+            k = self.kind_of(fn, tv, kw.value)
+            if k:
+                if kw.arg not in params or sub_tv is not None:
+                    self.undecided(fn, c)
+                sub_tv, kind = kw.arg, k
+        return [(v, f, t, d and kind == "full", org) for ((v, f, t, d), org) in
+                sorted(self.summary(g, sub_tv).items(), key=lambda x: repr(x[0]))]
+
+    # -- one function: {(value, failed, tested, done): origin}
+    def summary(self, g, tv):
+        key = (g.qual, tv)
+        if key in self.memo:
+            return self.memo[key]
+        if key in self.stack:
+            raise AnalysisError("%s: recursive evaluation of the %s" % (short(g), self.what))
+        self.stack.append(key)
+        try:
+            out = self._explore(g, tv)
+        finally:
+            self.stack.pop()
+        self.memo[key] = out
+        return out
+
+    def _report(self, fn, node, msg, w):
+        k = (fn.qual, fn.loc(node), msg)
+        if k not in self.reported:
+            self.reported.add(k)
+            self.r.violation(fn, fn.loc(node), "%s: %s" % (short(fn), msg), w)
+
+    def _explore(self, g, tv):
+        cfg = g.cfg()
+        heads = {}
+        for n in cfg.nodes:
+            if n.kind == "iter":
+                k = self.kind_of(g, tv, n.ast.iter)
+                if k:
+                    heads[n.id] = k
+        s0 = (cfg.entry.id, ((), False, None, False, ""))
+        visited, parent, work, returns = {s0}, {s0: None}, [s0], {}
+        i = 0
+        while i < len(work):
+            cur = work[i]
+            i += 1
+            nid, st = cur
+            n = cfg.nodes[nid]
+            vals, failed, tested, done, bad = st
+            if bad:
+                self._report(g, n.ast, bad, witness(cfg, parent, cur))
+                continue
+            if is_return(n) or n.kind == "exit":
+                for o in self.ev(g, tv, dict(vals), n.ast.value if is_return(n) else None):
+                    key = (o[0], failed or o[1], tested is True or o[2] or bool(heads), done or o[3])
+                    returns.setdefault(key, o[4] or (g, n.ast, witness(cfg, parent, cur)))
+                continue
+            for (d, lab) in cfg.succ[nid]:
+                for ns in self._step(g, tv, heads, n, lab, cfg.nodes[d], st):
+                    nxt = (d, ns)
+                    if nxt not in visited:
+                        visited.add(nxt)
+                        parent[nxt] = (cur, lab)
+                        work.append(nxt)
+                        if len(visited) > 20000:
+                            raise AnalysisError("state explosion in %s" % g.qual)
+        self.r.count(len(visited))
+        return returns
+
+    def _step(self, g, tv, heads, n, lab, nxt, st):
         vals, failed, tested, done, bad = st
-        msg = None
-        if bad:
-            msg = bad
-        elif is_return(n):
-            v = n.ast.value
-            val = dict(vals).get(v.id, "?") if isinstance(v, ast.Name) else const_of(v)
-            if failed and val is not False:
-                msg = "returns %s after a failing %s" % (val, what)
-            elif not failed and val is not True:
-                msg = "returns %s although every %s succeeded" % (val, what)
-            elif not failed and need_done and heads and not done:
-                msg = "returns True before all entries were examined"
-        if msg and (nid, msg) not in seen:
-            seen.add((nid, msg))
-            r.violation(fn, fn.loc(n.ast), "%s: %s" % (short(fn), msg), witness(cfg, parent, (nid, st)))
+        if lab == "exc":
+            return []
+        V = dict(vals)
+        a = n.ast
+        outs = [(None, False, False, False, None)]
+        target = None                      # plain local name receiving the evaluated value
+        combine = None
+        if n.kind == "stmt":
+            if isinstance(a, ast.Assign):
+                outs = self.ev(g, tv, V, a.value)
+                if all(isinstance(t, ast.Name) for t in a.targets):
+                    target = [t.id for t in a.targets]
+            elif isinstance(a, ast.AnnAssign) and a.value is not None:
+                outs = self.ev(g, tv, V, a.value)
+                if isinstance(a.target, ast.Name):
+                    target = [a.target.id]
+            elif isinstance(a, ast.AugAssign):
+                outs = self.ev(g, tv, V, a.value)
+                if isinstance(a.target, ast.Name) and isinstance(a.op, (ast.BitAnd, ast.BitOr)):
+                    target = [a.target.id]
+                    absorb = isinstance(a.op, ast.BitOr)
+                    old = _truth(V.get(a.target.id, "?"))
+                    combine = lambda v, _o=old, _a=absorb: _a if (_o is _a or _truth(v) is _a) else \
+                        ("?" if "?" in (_o, _truth(v)) else (not _a))
+                elif any(o[2] for o in outs):
+                    self.undecided(g, a)
+            elif isinstance(a, ast.Expr):
+                outs = self.ev(g, tv, V, a.value)
+            elif isinstance(a, (ast.FunctionDef, ast.AsyncFunctionDef, ast.ClassDef)):
+                pass
+            elif self.mentions(g, a):
+                self.undecided(g, a)
+        elif n.kind == "test":
+            want = lab[0] == "T" if isinstance(lab, tuple) else None
+            outs = [o for o in self.ev(g, tv, V, a) if want is None or _truth(o[0]) in (want, "?")]
+            if isinstance(a, ast.Name) and want is not None:
+                V[a.id] = want if V.get(a.id, "?") == "?" else V[a.id]
+        elif a is not None and n.kind in ("with", "iter"):
+            parts = [it.context_expr for it in a.items] if n.kind == "with" else [a.iter]
+            if any(self.mentions(g, p) for p in parts):
+                self.undecided(g, parts[0])
+        res = []
+        for o in outs:
+            W = dict(V)
+            stored = {s for s in node_stores(n) if s.isidentifier()}
+            if n.kind == "iter" and lab != "iter":
+                stored = set()
+            for s in stored:
+                W[s] = "?"
+            if target:
+                for t in target:
+                    W[t] = combine(o[0]) if combine else (o[0] if o[0] in (True, False, None) else "?")
+            f2, t2, d2, b2 = failed or o[1], (True if o[2] else tested), done or o[3], ""
+            if n.kind == "iter" and n.id in heads:
+                if lab == "iter":
+                    t2 = False
+                elif lab == "done" and heads[n.id] == "full":
+                    d2 = True
+            if nxt.kind == "iter" and nxt.id in heads and nxt.id != n.id and t2 is False and not f2:
+                b2 = "an iteration completes without evaluating the %s, although none has failed yet" % self.what
+            res.append((tuple(sorted(W.items(), key=lambda kv: kv[0])), f2, t2, d2, b2))
+        return res
+
+    # -- the property of the entry point
+    def judge(self, fn, tv):
+        outs = self.summary(fn, tv)
+        if not self.has_prim(fn):
+            raise AnchorVanished("%s no longer evaluates the %s" % (short(fn), self.what))
+        unknown = []
+        for (v, f, t, d), (of, node, w) in sorted(outs.items(), key=lambda x: repr(x[0])):
+            show = {True: "True", False: "False", None: "None", "?": "an undetermined value"}[v]
+            if v == "?":
+                unknown.append((of, node, f))
+                continue
+            if f and _truth(v) is not False:
+                self._report(of, node, "returns %s after a failing %s: the verdict is not the conjunction of all "
+                             "comparisons (a later success overrides an earlier failure)" % (show, self.what), w)
+            elif not f and _truth(v) is not True:
+                self._report(of, node, "returns %s although every %s succeeded" % (show, self.what), w)
+            elif not f and not d:
+                loops = [x for x in func_own_nodes(of) if isinstance(x, (ast.For, ast.While, ast.ListComp, ast.GeneratorExp,
+                                                                         ast.SetComp, ast.DictComp))]
+                known = [x for x in loops if isinstance(x, ast.For) and self.kind_of(of, self._tv_of(of, fn, tv), x.iter)]
+                if loops and not known:
+                    raise AnalysisError("%s: the iteration over the entries is not recognised" % short(of))
+                self._report(of, node, "returns True before every entry was examined (no %s failed so far)" % self.what, w)
+        for (of, node, f) in unknown:
+            raise AnalysisError("%s: the returned value '%s' is not determined by the %s outcomes" % (
+                short(of), src(of, node) if node is not None else "None", self.what))
+
+    def _tv_of(self, of, fn, tv):
+        if of is fn:
+            return tv
+        for (q, t) in self.memo:
+            if q == of.qual and t is not None:
+                return t
+        return None
 
 
 # -------------------------------------------------------------------- rules
